@@ -456,6 +456,20 @@ def goBody (recovered : Bool) (panic : Option Err) : GoResult :=
   | none => .returned
   | some p => if recovered then .unhandled p else .crash p
 
+/-- `Future(factory)` (operator_creation.go:458-473): the factory runs on a goroutine of the
+    library; its value is delivered as `Next, Complete`, its returned error as `Error` — but a
+    *panic* of the factory is only seen by the wrapper of the goroutine: the subscriber is not told. -/
+structure GoRun where
+  res : GoResult
+  /-- what the subscriber's callbacks receive -/
+  seen : List (Notif Int) := []
+deriving DecidableEq, Repr
+
+def futureRun (recovered : Bool) (panic : Option Err) (v : Int) : GoRun :=
+  match panic with
+  | none => { res := .returned, seen := [.next {} v, .complete {}] }
+  | some p => { res := goBody recovered (some p), seen := [] }
+
 /-! ### a destination that is not an `observerImpl`
 
   `Observer[T]` is an interface; a hand-written implementation has no `tryNext` around its code.
